@@ -74,13 +74,13 @@ class C07(Property):
         "well-formed workflows as generated; no recovery workflows (the recovery harness of C16 is not part of this check)",
         "control tokens put directly (TerminationToken, IterationTerminationToken) are not persisted — excluded by the statement",
     ]
-    quick_budget_s = 240
-    thorough_budget_s = 1500
+    quick_budget_s = 420
+    thorough_budget_s = 2400
     min_nontrivial = 20
 
     def explore(self, ctx: Ctx) -> None:
         rng = ctx.rng
-        n, k = (500, 6) if ctx.tier == "thorough" else (70, 2)
+        n, k = (500, 6) if ctx.tier == "thorough" else (50, 2)
         if ctx.mode == "search":
             n, k = n * 2, k + 2
         lines, metas = [], []
